@@ -427,7 +427,10 @@ func (e *applierEnv) stepVariant(cs *cstate, o *ROp, variant int) (res stepResul
 				}
 			}()
 
-			// (anchored without a canonical reference, as the pending entry is)
+			// (as it is anchored - the entries of the state must not be written to - and anchored without a canonical
+			// reference, as the pending entry is)
+			_, _ = e.applier.Apply(op, &with)
+
 			bare := *op
 			bare.CanonicalReference = ""
 			pout, perr = e.applier.Apply(&bare, &with)
